@@ -124,6 +124,10 @@ func c01Judge(obs *sigObs) (v *viol, recon int) {
 		return obs.Viol, 0
 	}
 	if obs.Err != nil {
+		if strings.Contains(strings.ToLower(obs.Err.Error()), "bls keyring") {
+			// the group key signatures are judged under is the one the machines report for the round (show_finished_dkg)
+			return violf("round-group-key-unavailable", "the machines that completed the round(s) cannot report the round's key material: %v", obs.Err), 0
+		}
 		return violf("harness", "%v", obs.Err), 0
 	}
 	ref := map[string][]byte{}   // batch|id -> proposed payload
